@@ -50,7 +50,11 @@ impl<'a> ProjectionStrategy for SelectionProjection<'a> {
         } = &self.plan.command
         {
             let payload_set: HashSet<String> = all_payload.into_iter().collect();
-            let projected: HashSet<String> = list
+            // Keep the RETURN list order: this column list is computed independently by
+            // every flow (memtable, segment, per shard), so it must be deterministic or
+            // the batches of one flow will not line up with the schema of another.
+            // `ProjectionColumns::add` already de-duplicates.
+            let projected: Vec<String> = list
                 .iter()
                 .filter(|f| {
                     ProjectionContext::is_core_field(f) || payload_set.contains(&f.to_string())
